@@ -7,5 +7,5 @@ import (
 )
 
 func main() {
-	mcreport.Main("C07", "fault_enumeration", connRule, connAssume, connDefs("C07"), 75*time.Second, 12*time.Minute, nil)
+	mcreport.Main("C07", "fault_enumeration", connRule, connAssume, connDefs("C07"), 75*time.Second, 20*time.Minute, nil)
 }
